@@ -250,6 +250,16 @@ let handle (r : reader) : unit =
       let bytes = encode_rows (nat_of_int (w / 8)) l in
       out_s "OK ";
       List.iter (fun b -> Buffer.add_string buf (Printf.sprintf "%02x" (int_of_n b))) bytes
+  | "STROWS" ->
+      (* STROWS w X -> hex of the FITS v2 data part *)
+      let w = next_int r in
+      let x = next_stmoc r in
+      let rec nat_of_int i = if i <= 0 then O else S (nat_of_int (i - 1)) in
+      let msb = N.pow (n_of_int 2) (n_of_int (w - 1)) in
+      let rows = encode2 msb x in
+      let bytes = encode_rows (nat_of_int (w / 8)) rows in
+      out_s "OK ";
+      List.iter (fun b -> Buffer.add_string buf (Printf.sprintf "%02x" (int_of_n b))) bytes
   | "ST2R" ->
       (* like ST2 but the output is in range-2D form: shape judged by r2d_okb *)
       let o = next_op2 r in
